@@ -29,6 +29,7 @@ func main() {
 	runArgProducts()
 	runViews()
 	runBoolMaps()
+	runStringForms()
 	runArray()
 	runArrayArgProducts(chk.Pick(2, 4))
 	runDirtyOperands()
@@ -1046,6 +1047,12 @@ func replay(path string) {
 		mc.LoadReplay(path, &c)
 		dirtyOne(chk.NewLocal(), c)
 		fmt.Printf("replay %+v\n", c)
+		return
+	} else if k == "strform" {
+		var c strCase
+		mc.LoadReplay(path, &c)
+		strOne(chk.NewLocal(), c)
+		fmt.Printf("replay string form %+v\n", c)
 		return
 	} else if k == "boolmap" {
 		var c boolMapCase
